@@ -18,11 +18,17 @@ import (
 	"strconv"
 	"strings"
 	"sync"
+	"sync/atomic"
 	"testing/synctest"
 	"time"
 
 	"verifsim/tape"
 )
+
+// Progress counts scheduler decisions across all runs of the process; the
+// harness watchdog uses it to tell a run that is merely long from one in
+// which a released task never yields again.
+var Progress atomic.Uint64
 
 // Event is something the scheduler may choose to do next.
 type Event struct {
@@ -473,6 +479,7 @@ func (s *Sim) Run(until func() bool, maxV time.Duration) Stop {
 		i := s.strat.pick(evs)
 		ev := evs[i]
 		s.steps++
+		Progress.Add(1)
 		s.current = ev.Node
 		s.logLocked("E", ev.Key)
 		// remove from the parked queue if it is a parked task
